@@ -681,6 +681,22 @@ def unescape : Str → Str
       | d :: rest' => d :: unescape rest'
     else c :: unescape rest
 
+/-- Does the text contain an extended operator that QuoteMeta leaves unescaped (`!`, `+`, `@`)
+    directly followed by a parenthesis? -/
+def hasExtOpener : Str → Bool
+  | c :: d :: r => (isExtOp c && !isQuoteMetaSpecial c && d == cLP) || hasExtOpener (d :: r)
+  | _ => false
+
+/-- Does the pattern contain an unescaped extended operator directly followed by a parenthesis? -/
+def hasExtGroup : Str → Bool
+  | [] => false
+  | c :: rest =>
+    if c = cBS then
+      match rest with
+      | [] => false
+      | _ :: r => hasExtGroup r
+    else (isExtOp c && rest.head? == some cLP) || hasExtGroup rest
+
 inductive MRes
   | panic                          -- Go panics (explicit panic, or regexp.MustCompile)
   | err (e : Err)                  -- error from Regexp
@@ -910,6 +926,12 @@ def altGlob : List Glob → Glob
   | [g] => g
   | g :: gs => .alt g (altGlob gs)
 
+/-- `g` followed by the parse of the rest. -/
+def andThenG (g : Glob) (r : Except Err Glob) : Except Err Glob :=
+  match r with
+  | .ok g' => .ok (.seq g g')
+  | .error e => .error e
+
 /-- Parse a pattern (or one alternative of a pattern-list).  `prev` is the character before the
     current position (0 at the very start), needed only to decide whether `**` stands alone as a
     path element. -/
@@ -917,37 +939,33 @@ def parseSeq (m : Mode) : Nat → Rune → Str → Except Err Glob
   | 0, _, _ => .ok .eps
   | _ + 1, _, [] => .ok .eps
   | fuel + 1, prev, c :: rest =>
-    let andThen (g : Glob) (p' : Rune) (r : Str) : Except Err Glob :=
-      match parseSeq m fuel p' r with
-      | .ok g' => .ok (.seq g g')
-      | .error e => .error e
     if c = cBS then
       match rest with
       | [] => .error .trailingBackslash
-      | d :: rest' => andThen (.lit d) d rest'
-    else if c = cQuest ∧ !(m.ext && rest.head? == some cLP) then andThen .any c rest
+      | d :: rest' => andThenG (.lit d) (parseSeq m fuel d rest')
+    else if c = cQuest ∧ !(m.ext && rest.head? == some cLP) then andThenG .any (parseSeq m fuel c rest)
     else if c = cStar ∧ !(m.ext && rest.head? == some cLP) then
       -- `**` alone between slashes (or the ends) is globstar, when enabled
       if m.filenames && !m.noglobstar && (prev == 0 || prev == cSlash) && rest.head? == some cStar
           && (rest.tail.isEmpty || rest.tail.head? == some cSlash) then
         match rest.tail with
-        | _ :: rest3 => andThen (.globstar true) cSlash rest3
+        | _ :: rest3 => andThenG (.globstar true) (parseSeq m fuel cSlash rest3)
         | [] => .ok (.seq (.globstar false) .eps)
-      else andThen .star c rest
+      else andThenG .star (parseSeq m fuel c rest)
     else if c = cLB then
       match scanBracket m.filenames rest with
-      | .notBracket => andThen (.lit cLB) cLB rest
+      | .notBracket => andThenG (.lit cLB) (parseSeq m fuel cLB rest)
       | .malformed e => .error e
-      | .ok neg items rest' => andThen (.bracket neg items) cRB rest'
+      | .ok neg items rest' => andThenG (.bracket neg items) (parseSeq m fuel cRB rest')
     else if m.ext && isExtOp c && rest.head? == some cLP then
       match scanGroup m.filenames (rest.length + 1) 0 [] [] rest.tail with
       | .error e => .error e
-      | .ok none => andThen (.lit c) c rest                -- no closing parenthesis: ordinary characters
+      | .ok none => andThenG (.lit c) (parseSeq m fuel c rest)  -- no closing parenthesis: ordinary characters
       | .ok (some (alts, rest')) =>
         match alts.mapM (parseSeq m fuel cLP) with
         | .error e => .error e
-        | .ok gs => andThen (.ext c (altGlob gs)) cRP rest'
-    else andThen (.lit c) c rest
+        | .ok gs => andThenG (.ext c (altGlob gs)) (parseSeq m fuel cRP rest')
+    else andThenG (.lit c) (parseSeq m fuel c rest)
 
 def parseGlob (m : Mode) (p : Str) : Except Err Glob := parseSeq m (p.length + 1) 0 p
 
@@ -968,7 +986,7 @@ def starK (m : Mode) (k : Bool → Str → Bool) : Bool → Str → Bool
 /-- `**`: any characters, slashes included, but no path component beginning with a dot. -/
 def gstarK (m : Mode) (k : Bool → Str → Bool) : Bool → Str → Bool
   | b, [] => k b []
-  | b, x :: s => k b (x :: s) || (!(!m.dotglob && b && x == cDot) && gstarK m k (x == cSlash) s)
+  | b, x :: s => k b (x :: s) || (!(!m.dotglob && b && x == cDot) && gstarK m k (startAfter m x) s)
 
 /-- Kleene iteration of `step`, at most `n` rounds, every round consuming something. -/
 def iterK (step : Bool → Str → (Bool → Str → Bool) → Bool) :
@@ -1001,7 +1019,7 @@ def gmatch (m : Mode) : Glob → Bool → Str → (Bool → Str → Bool) → Bo
   | .globstar false, b, s, k => gstarK m k b s
   | .globstar true, b, s, k =>
     k b s || gstarK m (fun _ s' => match s' with
-                                    | y :: s'' => y == cSlash && k true s''
+                                    | y :: s'' => y == cSlash && k (startAfter m y) s''
                                     | [] => false) b s
   | .bracket neg items, b, s, k =>
     match s with
@@ -1052,7 +1070,8 @@ def malformed (m : Mode) (p : Str) : Option Err :=
       contains the slash (negated, range, class), `**(`; without dotglob, `?`, a bracket
       expression or a pattern-list where the pattern alone does not exclude the start of a path
       component, and `*` after another wildcard that may have matched nothing;
-    * unterminated pattern-lists, bare parentheses inside a pattern-list, and `!(…)`.
+    * unterminated pattern-lists, bare parentheses inside a pattern-list, `!(…)`, and in
+      filename mode a slash inside a pattern-list.
 -/
 
 /-- Where the cursor can be relative to the path components of the subject, judging from the
@@ -1111,7 +1130,7 @@ def supp (m : Mode) (inGroup : Bool) : Nat → Pos → Rune → Str → Bool
         | .ok none => false
         | .ok (some (alts, rest')) =>
           (!dotSens || pos == .mid) &&
-          alts.all (fun a => supp m true fuel .mid cLP a) &&
+          alts.all (fun a => !(m.filenames && a.contains cSlash) && supp m true fuel .mid cLP a) &&
           supp m inGroup fuel (if dotSens then .unknown else .mid) cRP rest'
     else if c = cQuest then (!dotSens || pos == .mid) && supp m inGroup fuel .mid c rest
     else if c = cStar then
